@@ -105,6 +105,26 @@ static void client_check_frame(int s, const struct VideoFrame* f, const char* pr
 }
 
 // one monitor poll; mode: 0 consume all, 1 consume first frame only, 2 consume nothing
+// zero-copy stability (C02 at runtime level, C06): what a client has mapped must not change until it unmaps
+static uint8_t g_snap[2][8192]; static const uint8_t* g_snap_at[2]; static size_t g_snap_n[2];
+static void snap_take(int s, const void* b, const void* e)
+{
+    size_t n = (size_t)((const uint8_t*)e - (const uint8_t*)b);
+    if (n > sizeof g_snap[0]) n = sizeof g_snap[0];
+    g_snap_at[s] = (const uint8_t*)b; g_snap_n[s] = n;
+    if (n) memcpy(g_snap[s], b, n);
+}
+static void snap_verify(int s, const char* prop, const char* when)
+{
+    if (!g_snap_n[s]) return;
+    if (memcmp(g_snap[s], g_snap_at[s], g_snap_n[s])) {
+        size_t i = 0; while (g_snap[s][i] == g_snap_at[s][i]) ++i;
+        char cl[64]; snprintf(cl, sizeof cl, "%s:mapped-region-changed-while-held", prop);
+        vs_fail(cl, "stream %d: byte %zu of the %zu-byte region the client has mapped changed %s (was %02x, is %02x)", s, i, g_snap_n[s], when, g_snap[s][i], g_snap_at[s][i]);
+    }
+    vs_event(13);
+    g_snap_n[s] = 0;
+}
 static int client_poll(int s, int mode, double hold_ms, const char* prop)
 {
     struct VideoFrame *beg = 0, *end = 0;
@@ -129,7 +149,7 @@ static int client_poll(int s, int mode, double hold_ms, const char* prop)
     }
     if (nf > 1 && mode == 1) vs_event(10); // partial consumption of a multi-frame region
     if (nf > 0) vs_event(11);
-    if (hold_ms > 0) vs_sleep_ms(hold_ms);
+    if (hold_ms > 0) { snap_take(s, beg, end); vs_sleep_ms(hold_ms); snap_verify(s, prop, "during the hold"); }
     if (acquire_unmap_read(RT, (uint32_t)s, consumed) != AcquireStatus_Ok) {
         char cl[64];
         snprintf(cl, sizeof cl, "%s:unmap-read-fails", prop);
@@ -282,6 +302,7 @@ static void client_ops(const char* prog, const char* prop, int* held)
                     const uint8_t* cur = (const uint8_t*)b;
                     while (cur < (const uint8_t*)e) { const struct VideoFrame* f = (const struct VideoFrame*)cur; client_check_frame(s, f, prop); cur += f->bytes_of_frame; }
                     *held |= 1 << s;
+                    snap_take(s, b, e);
                     if (b != e) vs_event(12);
                     break;
                 }
@@ -303,6 +324,7 @@ static void release_held(int held, const char* prop)
 {
     for (int s = 0; s < P_STREAMS; ++s)
         if (held >> s & 1) {
+            snap_verify(s, prop, "across the end call");
             if (acquire_unmap_read(RT, (uint32_t)s, (size_t)1 << 30) != AcquireStatus_Ok) {
                 char cl[64]; snprintf(cl, sizeof cl, "%s:unmap-read-fails", prop);
                 vs_fail(cl, "acquire_unmap_read(stream %d) after stop/abort returned an error", s);
@@ -346,7 +368,7 @@ static void c06_run(void)
         VM.store[0].fail_append_at = (a == 0) ? fault_first : -1;
         if (a == 1 && fault_first >= 0) OKQ(acquire_configure(RT, &PROPS)); // the failed storage device has to be configured again
         OKQ(acquire_start(RT));
-        if (g_pending_late) { release_held(g_pending_late, "C06"); g_pending_late = 0; } // the late hand-back of a region held across the previous abort
+        if (g_pending_late) { if (vs_param("late_ms", 0) > 0) vs_sleep_ms((double)vs_param("late_ms", 0)); /* the new acquisition writes while the stale region is still held */ release_held(g_pending_late, "C06"); g_pending_late = 0; } // the late hand-back of a region held across the previous abort
         int held = 0;
         g_end_is_abort = ends[a] == 'a';
         if (a >= from) client_ops(prog, "C06", &held);
@@ -362,6 +384,9 @@ static void c06_run(void)
         }
         if (ends[a] == 'a') OKQ(acquire_abort(RT)); else OKQ(acquire_stop(RT));
         if (g_late_release) { g_pending_late = held & g_late_release; held &= ~g_late_release; g_late_release = 0; }
+        // a region kept beyond the end call: judged up to here only. stop/abort release the client's region on its behalf
+        // (fix 6f560cf: its own unmap later is a no-op), so what the stale pointer shows once the NEXT acquisition writes is not promised
+        for (int s = 0; s < P_STREAMS; ++s) if (g_pending_late >> s & 1) snap_verify(s, "C06", "across the end call");
         release_held(held, "C06");
         check_quiescent("C06", ends[a] == 'a' ? "abort" : "stop");
         // nothing of this acquisition may be delivered later: a poll now must be empty
@@ -414,6 +439,7 @@ static void c07_run(void)
     }
     int late = 0; // prog op 'L': the region held across the abort is handed back only after the follow-up has started
     if (g_late_release) { late = held & g_late_release; held &= ~g_late_release; g_late_release = 0; }
+    for (int s = 0; s < P_STREAMS; ++s) if (late >> s & 1) snap_verify(s, "C07", "across the end call"); // judged up to here only, see c06_run
     release_held(held, "C07");
     check_quiescent("C07", vs_param("ctl_stop", 0) ? "stop" : "abort");
     for (int s = 0; s < P_STREAMS; ++s) check_storage_complete(s, 1, -1, "C07", 1);
@@ -424,7 +450,7 @@ static void c07_run(void)
     begin_acquisition(reg);
     for (int s = 0; s < P_STREAMS; ++s) g_expect_first0[s] = reg[s];
     OKQ(acquire_start(RT));
-    if (late) release_held(late, "C07");
+    if (late) { if (vs_param("late_ms", 0) > 0) vs_sleep_ms((double)vs_param("late_ms", 0)); release_held(late, "C07"); }
     if (vs_param("client_polls", 0) || variant == 1) client_ops("mwm", "C07", &held);
     OKQ(acquire_stop(RT));
     check_quiescent("C07", "stop");
